@@ -92,9 +92,11 @@ static struct acq_ghost
     /* monitor reader per stream: abstract unread path (0..2 intervals left) */
     int mon_intervals[2];
     int mon_mapped[2];
+    size_t mon_len[2];
     int n_mon_map[2];
     int trig[2];
     int dm_destroyed;
+    int closed_under_worker; /* the violation above happened: the state has left the invariant */
 } ag;
 
 static struct runtime* g_rt; /* the runtime under test */
@@ -102,14 +104,12 @@ static struct runtime* g_rt; /* the runtime under test */
 static int
 stream_of(const void* p)
 {
-    /* which video stream a controller/channel pointer belongs to */
-    const char* c = (const char*)p;
-    const char* b0 = (const char*)&g_rt->video[0];
-    const char* b1 = (const char*)&g_rt->video[1];
-    if (c >= b1 && c < b1 + sizeof(struct video_s))
-        return 1;
-    VASSERT(c >= b0 && c < b0 + sizeof(struct video_s), "[C04.streams-do-not-mix] pointer into one of the two video streams");
-    return 0;
+    /* which video stream a controller/channel pointer belongs to (offset inside the runtime
+     * object: an integer comparison, not a pointer relation) */
+    size_t off = (size_t)((const char*)p - (const char*)g_rt);
+    VASSERT(__CPROVER_same_object(p, g_rt) && off >= offsetof(struct runtime, video) && off < sizeof(struct runtime),
+            "[C04.streams-do-not-mix] pointer into one of the two video streams");
+    return off >= offsetof(struct runtime, video) + sizeof(struct video_s) ? 1 : 0;
 }
 
 static int
@@ -150,6 +150,8 @@ camera_close(struct Camera* self)
 {
     if (!self)
         return;
+    if (worker_uses_cam(self))
+        ag.closed_under_worker++;
     VASSERT(!worker_uses_cam(self),
             "[C08.no-close-under-a-worker] a camera is closed while the source thread that uses it is alive");
     ag.cam_closes++;
@@ -263,6 +265,8 @@ storage_close(struct Storage* self)
 {
     if (!self)
         return;
+    if (worker_uses_sto(self))
+        ag.closed_under_worker++;
     VASSERT(!worker_uses_sto(self),
             "[C08.no-close-under-a-worker] a storage device is closed while the sink thread that uses it is alive");
     if (self->state == DeviceState_Running)
@@ -493,7 +497,8 @@ channel_read_map(struct channel* self, struct channel_reader* reader)
     if (reader->state == ChannelState_Mapped) {
         reader->status = Channel_Expected_Unmapped_Reader;
         ag.mon_intervals[s] = 0;
-        return (struct slice){ 0, 0 };
+        static uint64_t none[1];
+        return (struct slice){ (uint8_t*)none, (uint8_t*)none };
     }
     if (reader->id == 0)
         reader->id = 1 + (unsigned)s; /* registered */
@@ -501,12 +506,18 @@ channel_read_map(struct channel* self, struct channel_reader* reader)
     /* while workers run the writer may have committed more (at most one lap ahead) */
     if (ag.live[s][0] || ag.live[s][1])
         ag.mon_intervals[s] = nd_uchar() % 3;
-    if (ag.mon_intervals[s] == 0)
-        return (struct slice){ 0, 0 }; /* empty only when drained (C01) */
+    static uint64_t frame_mem[16];
+    if (ag.mon_intervals[s] == 0) {
+        /* empty only when drained (C01). The real channel returns {NULL,NULL}; the stub returns
+         * an empty slice at a valid address because CBMC treats NULL-NULL as a fatal pointer
+         * check and this unit needs --pointer-check for the use-after-close obligations;
+         * acquire.c only computes end-beg of it. */
+        return (struct slice){ (uint8_t*)frame_mem, (uint8_t*)frame_mem };
+    }
     reader->state = ChannelState_Mapped;
     ag.mon_mapped[s] = 1;
-    static uint64_t frame_mem[16];
-    return (struct slice){ (uint8_t*)frame_mem, (uint8_t*)frame_mem + 8 * (1 + nd_uchar() % 15) };
+    ag.mon_len[s] = 8 * (size_t)(1 + nd_uchar() % 15);
+    return (struct slice){ (uint8_t*)frame_mem, (uint8_t*)frame_mem + ag.mon_len[s] };
 }
 
 void
@@ -520,7 +531,7 @@ channel_read_unmap(struct channel* self, struct channel_reader* reader, size_t c
     reader->state = ChannelState_Unmapped;
     ag.mon_mapped[s] = 0;
     /* consuming the whole region finishes the first interval; a partial consume leaves it */
-    if (consumed_bytes >= 8 * 16 || nd_bool())
+    if (consumed_bytes >= ag.mon_len[s])
         ag.mon_intervals[s]--;
 }
 
